@@ -15,6 +15,31 @@ import Curtsies.Properties.C14
 import Curtsies.Proofs.ParseArgs
 namespace Curtsies
 
+/-! bridges between the specification's own helpers and the model's -/
+theorem specColour_eq (base i : Int) : specColour base i = colourIndex base (.int i) := rfl
+theorem afterOn_eq (s : String) : afterOn s = strDrop3 s := rfl
+theorem beq_swap (x y : Char) : (x == y) = (y == x) := by
+  by_cases h : x = y
+  · subst h; rfl
+  · have h' : ¬ y = x := fun e => h e.symm
+    rw [beq_eq_false_iff_ne.mpr h, beq_eq_false_iff_ne.mpr h']
+theorem onPrefix_eq (l : String) : onPrefix l = startsWithOn l := by
+  have e : "on_".toList = ['o', 'n', '_'] := by decide
+  simp only [onPrefix, startsWithOn, e]
+  generalize l.toList = xs
+  cases xs with
+  | nil => rfl
+  | cons a xs =>
+    cases xs with
+    | nil => simp [List.isPrefixOf]
+    | cons b xs =>
+      cases xs with
+      | nil => simp [List.isPrefixOf]
+      | cons c xs =>
+        simp only [List.isPrefixOf, List.take, List.take_zero]
+        rw [beq_swap 'o' a, beq_swap 'n' b, beq_swap '_' c]
+        by_cases h1 : a = 'o' <;> by_cases h2 : b = 'n' <;> by_cases h3 : c = '_' <;> simp [h1, h2, h3]
+
 abbrev G := Key → Option ArgVal
 def view (kw : Kw) : G := fun k => kw.get? k.name
 def G.upd (g : G) (j : Key) (v : ArgVal) : G := fun k => if k = j then some v else g k
@@ -109,7 +134,7 @@ theorem posStep_spec (lower : String → String) (kw : Kw) (arg : ArgVal) :
       | some (j, oc) => if stepOk (view kw j) oc then .ok (kw.set j.name (newVal j oc)) else .error .valueError := by
   cases arg with
   | str s =>
-    simp only [posStep, posName, colourOfName, C14_tables.1, C14_tables.2.1]
+    simp only [posStep, posName, colourOfName, specColour_eq, onPrefix_eq, afterOn_eq, C14_tables.1, C14_tables.2.1]
     cases h1 : fgTable.lookup (lower s) with
     | some code =>
       obtain ⟨c, hc, hcode⟩ := fg_lookup _ _ h1
@@ -356,7 +381,7 @@ theorem colourBlock_spec (table : List (String × Nat)) (base : Int) (key : Stri
   | some v =>
     cases v with
     | int i =>
-      simp only [kwColour, H2]
+      simp only [kwColour, specColour_eq, H2]
       cases hc : colourIndex base (.int i) with
       | none => simp
       | some c =>
@@ -366,7 +391,7 @@ theorem colourBlock_spec (table : List (String × Nat)) (base : Int) (key : Stri
         · rw [if_pos e, e, hg, hi]
         · rw [if_neg e]
     | str s =>
-      simp only [kwColour, colourOfName]
+      simp only [kwColour, colourOfName, specColour_eq]
       cases hl : table.lookup s with
       | none => simp
       | some code =>
@@ -663,10 +688,10 @@ theorem ents_style (named : Named) (hwf : WF named) (k : Key) (h1 : k ≠ .fg) (
 
 theorem newVal_fg (c : Fin 8) : kwColour fgTable 30 (newVal .fg (some c)) = some c := by
   have : ((30 + c.val : Nat) : Int) = (30 : Int) + (c.val : Int) := by omega
-  simp only [newVal, kwColour, this, colourIndex_base]
+  simp only [newVal, kwColour, this, specColour_eq, colourIndex_base]
 theorem newVal_bg (c : Fin 8) : kwColour bgTable 40 (newVal .bg (some c)) = some c := by
   have : ((40 + c.val : Nat) : Int) = (40 : Int) + (c.val : Int) := by omega
-  simp only [newVal, kwColour, this, colourIndex_base]
+  simp only [newVal, kwColour, this, specColour_eq, colourIndex_base]
 
 theorem runK_colour (k : Key) (table : List (String × Nat)) (base : Int)
     (hnv : ∀ c, kwColour table base (newVal k (some c)) = some c) (v0 : Option ArgVal) (cs : List (Fin 8)) :
@@ -827,6 +852,94 @@ theorem C14_error_kind (lower : String → String) (args : List ArgVal) (kw : Kw
   cases hd : denote lower args kw with
   | none => rw [h2 hd] at h; injection h with h; exact h.symm
   | some a => rw [(h1 a).mpr hd] at h; cases h
+
+theorem get?_append (l1 l2 : Kw) (k : String) :
+    Kw.get? (l1 ++ l2) k = (Kw.get? l1 k).orElse fun _ => Kw.get? l2 k := by
+  induction l1 with
+  | nil => simp [Kw.get?]
+  | cons p rest ih =>
+    rw [List.cons_append, Kw.get?_cons, Kw.get?_cons, ih]
+    by_cases h : p.1 = k <;> simp [h]
+
+theorem get?_piece {γ : Type} (o : Option γ) (key : String) (g : γ → ArgVal) (k : String) :
+    Kw.get? ((o.map fun v => (key, g v)).toList) k = if key = k then o.map g else none := by
+  cases o with
+  | none => simp [Kw.get?]
+  | some v => simp [Kw.get?]
+
+theorem toKw_get (a : Atts) :
+    a.toKw.get? "bg" = a.bg.map (fun c => ArgVal.int (40 + c.val)) ∧
+    a.toKw.get? "blink" = a.blink.map ArgVal.bool ∧ a.toKw.get? "bold" = a.bold.map ArgVal.bool ∧
+    a.toKw.get? "dark" = a.dark.map ArgVal.bool ∧
+    a.toKw.get? "fg" = a.fg.map (fun c => ArgVal.int (30 + c.val)) ∧
+    a.toKw.get? "invert" = a.invert.map ArgVal.bool ∧ a.toKw.get? "italic" = a.italic.map ArgVal.bool ∧
+    a.toKw.get? "underline" = a.underline.map ArgVal.bool ∧ a.toKw.get? "style" = none := by
+  simp only [Atts.toKw, get?_append, get?_piece]
+  simp
+
+theorem keys_piece {γ : Type} (o : Option γ) (key : String) (g : γ → ArgVal) :
+    List.Sublist (keysOf ((o.map fun v => (key, g v)).toList)) [key] := by
+  cases o <;> simp [keysOf]
+
+theorem toKw_keys (a : Atts) : List.Sublist (keysOf a.toKw) attKeys := by
+  simp only [Atts.toKw, keysOf, List.map_append]
+  have e : attKeys = ["bg"] ++ ["blink"] ++ ["bold"] ++ ["dark"] ++ ["fg"] ++ ["invert"] ++ ["italic"] ++ ["underline"] := rfl
+  rw [e]
+  exact ((((((( (keys_piece _ _ _).append (keys_piece _ _ _)).append (keys_piece _ _ _)).append (keys_piece _ _ _)).append
+    (keys_piece _ _ _)).append (keys_piece _ _ _)).append (keys_piece _ _ _)).append (keys_piece _ _ _))
+
+/-- `fmtstr(text, **atts)` for the attribute dict of an existing FmtStr: `parse_args` accepts such a dict
+    unchanged (for every `lower`). -/
+theorem C14_parse_own_atts (lower : String → String) (a : Atts) : parseArgs lower [] a.toKw = .ok a := by
+  have hsub := toKw_keys a
+  have hnd : (a.toKw.map Prod.fst).Nodup := (by decide : attKeys.Nodup).sublist hsub
+  rw [(C14_sound_complete lower [] a.toKw hnd).1 a]
+  obtain ⟨g1, g2, g3, g4, g5, g6, g7, g8, gs⟩ := toKw_get a
+  have hdel : Kw.del a.toKw "style" = a.toKw := del_none _ _ gs
+  have hknown : (a.toKw.all fun p => isKnownKey p.1) = true := by
+    rw [List.all_eq_true]
+    intro p hp
+    have : p.1 ∈ attKeys := hsub.subset (List.mem_map.mpr ⟨p, hp, rfl⟩)
+    exact (attKeys_iff p.1).mp (by simpa using this)
+  have rc : ∀ (table : List (String × Nat)) (base : Int) (o : Option (Fin 8)),
+      resolveColour table base (o.map fun c => ArgVal.int (base + c.val)) [] = some o := by
+    intro table base o
+    cases o with
+    | none => rfl
+    | some c => simp [resolveColour, kwColour, specColour_eq, colourIndex_base]
+  have rs : ∀ o : Option Bool, resolveStyle (o.map ArgVal.bool) false = some o := by
+    intro o; cases o <;> rfl
+  simp only [denote, gs, Option.toList_none, List.append_nil, hdel, List.mapM_nil, hknown, if_true,
+    g1, g2, g3, g4, g5, g6, g7, g8]
+  have r1 := rc bgTable 40 a.bg
+  have r2 := rc fgTable 30 a.fg
+  simp [r1, r2, rs]
+
+/-- `fmtstr(f, *args, **kwargs)` composed with the denotation: the call succeeds exactly on valid specifications
+    and then every character keeps its text and gets its dict overridden by the denoted attributes
+    (`C14_override`); an invalid specification raises ValueError and builds nothing. -/
+theorem C14_fmtstr_denote (lower : String → String) (f : FmtStr) (args : List ArgVal) (kw : Kw)
+    (hnd : (kw.map Prod.fst).Nodup) :
+    (∀ r, fmtstrApply lower f args kw = .ok r ↔ ∃ a, denote lower args kw = some a ∧ r = copyWithNewAtts f a) ∧
+    (∀ a, denote lower args kw = some a → ∃ r, fmtstrApply lower f args kw = .ok r ∧
+        cells r = (cells f).map fun p => (p.1, p.2.extend a)) ∧
+    (denote lower args kw = none → fmtstrApply lower f args kw = .error .valueError) := by
+  obtain ⟨h1, h2⟩ := C14_sound_complete lower args kw hnd
+  refine ⟨fun r => ?_, fun a ha => ?_, fun hd => ?_⟩
+  · unfold fmtstrApply
+    cases hp : parseArgs lower args kw with
+    | error e =>
+      constructor
+      · intro h; cases h
+      · rintro ⟨a, ha, _⟩; rw [(h1 a).mpr ha] at hp; cases hp
+    | ok a =>
+      constructor
+      · intro h; injection h with h; exact ⟨a, (h1 a).mp hp, h.symm⟩
+      · rintro ⟨b, hb, rfl⟩
+        have := (h1 b).mpr hb
+        rw [hp] at this; injection this with this; rw [this]
+  · exact ⟨copyWithNewAtts f a, by simp [fmtstrApply, (h1 a).mpr ha], C14_apply f a⟩
+  · simp [fmtstrApply, h2 hd]
 
 /-- Non-vacuity: the hypotheses are met by an ordinary call, valid and invalid. -/
 example : parseArgs idl [.str "red", .str "bold"] [("bg", .int 44), ("underline", .bool false)]
